@@ -11,6 +11,7 @@ hs = [H("verifC16A", "1+1 input bits, one gate of any type: EVERY byte of the ev
 for h in hs:
     if h.name in ("verifC16Wide66",):
         h.no_anfcheck = True  # 66 x 128-bit label comparisons: the z3 re-check of the GF(2) verdict hits the hard solver time-out
+        h.flags = h.flags + ["-qtimeout", "240000"]  # its one big obligation needs ~40 s on an idle machine, more under load
 if tier != "quick":
     h130 = H("verifC16Wide130", "130 output bits (three machine words): one returned label (arbitrary index) xored with an arbitrary 16-byte mask")
     h130.no_anfcheck = True
